@@ -185,24 +185,38 @@ def build_api(ctx, seeds):
     return dirs
 
 
-def generate(ctx):
+def run(ctx):
+    """custom driver: the gcc builds of the API graphs overlap with the in-line / ABI cases, and
+    those run mostly on the plain backend (pycparser is ~20x slower in an ASan'd interpreter;
+    sanitizer reports are observations here) with a sample on the ASan backend; children, cases
+    and judge are those of the generic pipeline"""
+    import concurrent.futures as cf
     rng = ctx.rng('gen')
-    n_light = ctx.scale(60, 3000)
-    n_api = ctx.scale(3, 100)
-    cases = []
-    per = 10
-    for mode in ('inline', 'abi'):
-        seeds = [rng.getrandbits(40) for _ in range(n_light)]
-        cases += [{'mode': mode, 'seeds': seeds[i:i + per]} for i in range(0, n_light, per)]
-    aseeds = [rng.getrandbits(40) for _ in range(n_api)]
-    dirs = build_api(ctx, aseeds)
+    aseeds = [rng.getrandbits(40) for _ in range(ctx.scale(3, 100))]
+    ctx.tmp
+
+    def light(n, **kw):
+        cases = []
+        for mode in ('inline', 'abi'):
+            seeds = [rng.getrandbits(40) for _ in range(n)]
+            cases += [dict(kw, mode=mode, seeds=seeds[i:i + 10]) for i in range(0, n, 10)]
+        rng.shuffle(cases)
+        return cases
+
+    def go(cases, variant):
+        for c, o in zip(cases, core.run_cases(ctx, 'c34', None, cases, variant=variant,
+                                              timeout=TIMEOUT)):
+            if core.std_obs_check(ctx, c, o, True, SAN_DECIDES):
+                judge(ctx, None, c, o)
+    with cf.ThreadPoolExecutor(1) as ex:
+        fut = ex.submit(build_api, ctx, aseeds)
+        go(light(ctx.scale(150, 3000)), 'plain')
+        go(light(ctx.scale(10, 200), asan=1), 'asan')
+        dirs = fut.result()
     ctx.count('api_graphs_built', len(dirs))
     aseeds = [s for s in aseeds if s in dirs]
-    per = 4
-    cases += [{'mode': 'api', 'seeds': aseeds[i:i + per], 'dirs': [dirs[s] for s in aseeds[i:i + per]]}
-              for i in range(0, len(aseeds), per)]
-    rng.shuffle(cases)
-    return None, cases
+    go([{'mode': 'api', 'asan': 1, 'seeds': aseeds[i:i + 4], 'dirs': [dirs[s] for s in aseeds[i:i + 4]]}
+        for i in range(0, len(aseeds), 4)], 'asan')
 
 
 def replay_setup(ctx, case):
@@ -366,6 +380,8 @@ def child_case(st, case):
     finally:
         sys.stdout = out
     rep.stat('contract_evaluations_' + st['contract'], NCONTRACT[0])
+    if case.get('asan'):
+        rep.stat('graphs_on_asan_backend', len(case['seeds']))
     NCONTRACT[0] = 0
     return rep.result()
 
